@@ -234,3 +234,13 @@ impl ResourceAllocator {
         }
     }
 }
+
+#[cfg(feature = "verif")]
+impl ResourceAllocator {
+    pub(crate) fn verif_snapshot(&self) -> crate::verif::AllocatorSnapshot {
+        crate::verif::AllocatorSnapshot {
+            pools: self.pools.iter().map(|p| p.verif_snapshot()).collect(),
+            concise: self.free_resources.verif_snapshot(),
+        }
+    }
+}
